@@ -25,6 +25,8 @@ type c26Params struct {
 	Subs   int        `json:"subscriptions"`
 	Items  int        `json:"items_per_subscription"`
 	Faults []c25Fault `json:"faults"` // operation numbers count from the end of the set-up
+	Mixed  bool       `json:"mixed_timestamps"` // the items of a subscription alternate between TimestampsToReturn Both and Source
+	Second string     `json:"second_fault"`     // reset | restart: a second loss, 20 intervals after the first fault window began
 }
 
 type c26Obs struct {
@@ -36,6 +38,7 @@ type c26Obs struct {
 	state     opcua.ConnState
 	done      bool
 	recoverAt int64
+	secondAt  int64
 }
 
 var c26obs *c26Obs
@@ -100,7 +103,11 @@ func c26Body(p c26Params) func() {
 			}
 			for i := 0; i < p.Items; i++ {
 				k := s*p.Items + i
-				if _, err := sub.Monitor(ctx, ua.TimestampsToReturnBoth, opcua.NewMonitoredItemCreateRequestWithDefaults(e.nodeID(k), ua.AttributeIDValue, uint32(100+k))); err != nil {
+				ts := ua.TimestampsToReturnBoth
+				if p.Mixed && k%2 == 1 {
+					ts = ua.TimestampsToReturnSource
+				}
+				if _, err := sub.Monitor(ctx, ts, opcua.NewMonitoredItemCreateRequestWithDefaults(e.nodeID(k), ua.AttributeIDValue, uint32(100+k))); err != nil {
 					obs.setupErr = err.Error()
 					return
 				}
@@ -156,6 +163,20 @@ func c26Body(p c26Params) func() {
 			return ""
 		}
 		time.Sleep(20 * c25Interval) // faults strike, the client reconnects and restores its subscriptions
+		if p.Second != "" {
+			obs.injected = append(obs.injected, fmt.Sprintf("%s at %d ms", p.Second, vrt.Now()/1e6))
+			obs.secondAt = vrt.Now()
+			for _, cn := range n.Conns {
+				cn.Reset()
+			}
+			if p.Second == "restart" {
+				select {
+				case restart <- struct{}{}:
+				default:
+				}
+			}
+			time.Sleep(20 * c25Interval)
+		}
 		recovered, recVal = true, tick
 		obs.recoverAt = vrt.Now()
 		time.Sleep(30 * c25Interval) // every item must deliver values written after the recovery point
@@ -170,7 +191,13 @@ func c26Check(p c26Params) func(x *vrt.Exec) (string, string, string) {
 	for _, f := range p.Faults {
 		kinds += "+" + f.Kind
 	}
+	if p.Second != "" {
+		kinds += "+later:" + p.Second
+	}
 	tag := fmt.Sprintf("c26/subs=%d/items=%d/faults=%s", p.Subs, p.Items, kinds)
+	if p.Mixed {
+		tag += "/mixed-timestamps"
+	}
 	return func(x *vrt.Exec) (string, string, string) {
 		if out, sig, detail, failed := fail(x); failed {
 			if sig != "" {
@@ -210,6 +237,9 @@ func c26Check(p c26Params) func(x *vrt.Exec) (string, string, string) {
 			for _, m := range msgs {
 				if len(o.injected) > 0 && m.Conn == 0 {
 					continue
+				}
+				if o.secondAt > 0 && m.At < o.secondAt {
+					continue // the exchange after the second loss
 				}
 				l := fmt.Sprintf("%dms conn%d %s req%d %T", m.At/1e6, m.Conn, m.Dir, m.ReqID, m.Svc)
 				if r, ok := m.Svc.(ua.Response); ok && r.Header() != nil && r.Header().ServiceResult != ua.StatusOK {
@@ -259,6 +289,12 @@ func c26Scenarios(thorough bool) []driver.Scenario {
 		for _, f := range p.Faults {
 			name += fmt.Sprintf("/%s@%d", f.Kind, f.At)
 		}
+		if p.Second != "" {
+			name += "/then-" + p.Second
+		}
+		if p.Mixed {
+			name += "/mixed-timestamps"
+		}
 		out = append(out, driver.Scenario{
 			Name:   name,
 			Params: p, Cfg: vrt.Config{Horizon: int64(time.Hour), MaxSteps: 8000000},
@@ -278,6 +314,19 @@ func c26Scenarios(thorough bool) []driver.Scenario {
 		for _, k := range kinds {
 			for at := 1; at <= maxAt; at++ {
 				add(c26Params{Subs: sh[0], Items: sh[1], Faults: []c25Fault{{at, k}}})
+			}
+		}
+	}
+	// two losses in a row (the subscription is restored twice), items with different timestamp settings
+	add(c26Params{Subs: 1, Items: 2, Mixed: true})
+	secondAt := 4
+	if thorough {
+		secondAt = 12
+	}
+	for _, k := range kinds {
+		for _, k2 := range []string{"reset", "restart"} {
+			for at := 1; at <= secondAt; at++ {
+				add(c26Params{Subs: 1, Items: 2, Mixed: true, Faults: []c25Fault{{at, k}}, Second: k2})
 			}
 		}
 	}
@@ -314,6 +363,7 @@ func c26AckAudit(msgs []wireMsg) (twice, never []string, nReceived int) {
 		req  uint32
 	}
 	byReq := map[rk][]*incl{}
+	asked := map[rk]bool{} // PublishRequests the client sent, per connection
 	lastResp := -1
 	for i, m := range msgs {
 		switch v := m.Svc.(type) {
@@ -321,6 +371,7 @@ func c26AckAudit(msgs []wireMsg) (twice, never []string, nReceived int) {
 			if m.Dir != "c2s" {
 				continue
 			}
+			asked[rk{m.Conn, m.ReqID}] = true
 			for _, a := range v.SubscriptionAcknowledgements {
 				in := &incl{req: m.ReqID, conn: m.Conn}
 				k := key{a.SubscriptionID, a.SequenceNumber}
@@ -330,6 +381,12 @@ func c26AckAudit(msgs []wireMsg) (twice, never []string, nReceived int) {
 		case *ua.PublishResponse:
 			if m.Dir != "s2c" || !m.Consumed {
 				continue // a response the client never read does not count as an answer
+			}
+			if !asked[rk{m.Conn, m.ReqID}] {
+				// The server answered a PublishRequest of an earlier connection on this one (it keeps a
+				// session's queued requests across channels): the client has no such request outstanding,
+				// cannot attribute the response and so never received this notification.
+				continue
 			}
 			lastResp = i
 			for j, in := range byReq[rk{m.Conn, m.ReqID}] {
